@@ -129,6 +129,21 @@ def work_stack(job):
                           (name, 'closed' if closed else 'unclosed', hw[(closed, large)] // 1024, large, hw[(closed, small)] // 1024, small),
                           dict(construct=name, closed=closed, sizes=[small, large], highwater=[hw[(closed, small)], hw[(closed, large)]]))
     # the same nest in a document that switches on the optional tree passes (abbreviation / glossary search, notes, TOC, metadata)
+    if name.startswith('critic') and sizes:
+        # -a / -r: the text-level accept / reject pass walks the same nest
+        for flag, fname in ((D.EXT['CRITIC_ACCEPT'], 'accept'), (D.EXT['CRITIC_REJECT'], 'reject')):
+            for closed in (True, False):
+                nb = max(sizes[-1], 1000000)         # frames of this pass are small: go deep
+                data = make_input(name, o, c, fill, nb, closed)
+                res = run_cost('plain', D.FMT['html'], D.EXT_CLI | flag, data, timeout=300)
+                r.evaluations += 1
+                r.stats['child_runs_critic_prepass'] += 1
+                if res['rc'] != 'timeout' and res['rc'] != 0:
+                    sig = signal.Signals(-res['rc']).name if isinstance(res['rc'], int) and res['rc'] < 0 else 'rc%s' % res['rc']
+                    r.violate('crash:%s:%s:%s' % (sig, name, fname), '%s (%s) with %d bytes of openers through the %s pass: child ended with %s under an 8 MiB stack' %
+                              (name, 'closed' if closed else 'unclosed', nb, fname, sig), dict(construct=name, closed=closed, bytes=nb, fmt=0, ext=D.EXT_CLI | flag), res.get('err'))
+                elif res['rc'] == 0:
+                    r.distinct.add((name, fname, closed))
     done = sorted(n for (cl, n) in hw if cl)
     if done:
         nbytes = done[-1]
@@ -187,6 +202,30 @@ def judge_series(points):
     if len(tail) == 2 and min(tail) > TAIL_SLOPE_MAX and b1 >= 5000000:
         return 'tail', info
     return None, info
+
+
+def work_limit_hits(job):
+    """the depth limits are per nest: a document whose blocks hit a limit more than 1000 times must still survive one very deep nest
+    afterwards (the guards' counters have to come back to zero after every hit)"""
+    seed, idx, hits, deep = job
+    r = core.JobResult()
+    name, o, c, fill = CONSTRUCTS[idx]
+    unit = make_input(name, o, c, fill, 1100 * len(o), True).decode() + '\n'
+    data = (unit * hits).encode() + make_input(name, o, c, fill, deep, True)
+    for fmt in (D.FMT['html'], D.FMT['latex'], D.FMT['fodt']):
+        res = run_cost('plain', fmt, D.EXT_CLI, data, timeout=300)
+        r.evaluations += 1
+        r.stats['child_runs_limit_hits'] += 1
+        if res['rc'] == 'timeout':
+            r.stats['runs over the per-run time limit (cost of balanced nesting, not judged)'] += 1
+            continue
+        if res['rc'] != 0:
+            sig = signal.Signals(-res['rc']).name if isinstance(res['rc'], int) and res['rc'] < 0 else 'rc%s' % res['rc']
+            r.violate('crash:%s:%s:after-limit-hits' % (sig, name), '%d blocks of %s nested 1100 deep, then one nest of %d bytes, %s: child ended with %s under an 8 MiB stack' %
+                      (hits, name, deep, D.FMT_NAME[fmt], sig), dict(construct=name, hits=hits, deep=deep, fmt=fmt), res.get('err'))
+            continue
+        r.distinct.add((name, 'limit-hits', hits, fmt))
+    return r
 
 
 def work_cost(job):
@@ -259,6 +298,8 @@ def main():
         fm = fmts_all if thorough else [D.FMT['html'], rng.choice(fmts_all[1:])]
         jobs.append((chk.seed, idx, sizes, fm, 300000 if thorough else 20000))
     chk.run_jobs(work_stack, jobs)
+    lh = [i for i, cst in enumerate(CONSTRUCTS) if cst[0] in (('blockquote', 'bracket', 'star-emph', 'critic-add') if not thorough else [x[0] for x in CONSTRUCTS if x[1] is not None])]
+    chk.run_jobs(work_limit_hits, [(chk.seed, i, 1005, 200000 if not thorough else 1000000) for i in lh])
     # cost
     ks = [1, 2, 4, 8, 16, 32, 64] + ([128, 256] if thorough else [])
     cjobs = []
